@@ -17,6 +17,7 @@ acquisition and occurs once; the acquired permit lives in a coroutine local that
 path to inner.call and is neither dropped nor moved on any path until the awaited inner call has
 completed (so it is released on completion, on error and when the future is dropped — RAII), and the
 crate never forgets, leaks, adds or closes permits.
+One layer out: clones share the semaphore map, poll_ready only delegates, the configured maximum is stored as given, PeerId equality/hash are derived.
 """
 TRUSTED = ["tokio Semaphore counting and SemaphorePermit release-on-drop", "DashMap entry API atomicity"]
 NOT_DECIDED = ["fairness / wake-up order of blocked requests", "counting over long histories (follows per request from the permit's RAII lifetime)"]
